@@ -921,6 +921,21 @@ func c01Forced(c *Ctx, r *RuleResult, runs []*fsRun) {
 		}
 		seen[k+run.Status] = true
 		ok := !strings.HasPrefix(run.Status, "5")
+		// ... and when it is not a server error it must be a refusal the
+		// statement knows for that very situation (the resource the request
+		// has seen makes the operation impossible: PUT on a collection, MKCOL
+		// on an existing name). Any other call sequence that cannot succeed
+		// in the state the request observed refuses a request the
+		// resource-tree model carries out.
+		legit := map[string]string{"PUT|os.Create|EISDIR": "405", "MKCOL|os.Mkdir|EEXIST": "405"}
+		if ok {
+			want, known := legit[run.Method+"|"+f.Call+"|"+f.Outcome]
+			if !known || want != run.Status {
+				r.Ob(false)
+				r.Violation("forced-refusal|"+k+"|got="+run.Status, f.Pos, fmt.Sprintf("%s: %s is reached although %s, so it can only fail (%s) and the request is refused with %s — with nothing wrong in the operating system. In the resource-tree model this request is carried out (COPY/MOVE replace an existing destination of either kind when Overwrite allows it): the code's own sequence of calls cannot do what the request asks in this state. Trace: %s", run.Method, f.Call, forced[0].Why, f.Outcome, run.Status, run.describe()), nil)
+				continue
+			}
+		}
 		r.Ob(ok)
 		r.Sample(map[string]interface{}{"scenario": k, "status": run.Status, "why": forced[0].Why})
 		if !ok {
